@@ -311,6 +311,17 @@ fn c05(quick: bool) -> Vec<Harness> {
             v.push(ops_harness(&format!("cq{cq}-c0={c0:#x}"), "C05", cfg, bounds(d(8, 10), d(3, 4), 3)));
         }
     }
+    // The Ring's own last drain (when it is dropped) with more completions than the queue holds.
+    for (preset, sq, c0) in [(vec![Kind::ReadVec, Kind::WriteVec], 1u32, 0u32), (vec![Kind::ReadVec, Kind::SendZc], 2, 0xffff_fffe), (vec![Kind::MultishotRead, Kind::ReadVec], 2, 0)] {
+        let mut cfg = drop_cfg("C05", preset.clone());
+        cfg.sq = sq;
+        cfg.cq = Some(2);
+        cfg.c0_cq = c0;
+        cfg.final_drop_ring_first = true;
+        cfg.report = vec!["C05"];
+        let name = format!("{}-sq{sq}-cq2-c0={c0:#x}-ring-dropped-first", preset.iter().map(|k| format!("{k:?}")).collect::<Vec<_>>().join("+"));
+        v.push(ops_harness(&name, "C05", cfg, bounds(d(7, 9), d(2, 3), 4)));
+    }
     v
 }
 
